@@ -56,8 +56,15 @@ THEOREMS = [
     "Spydr.Eblif.self_contained",
     "Spydr.Eblif.undeclared_leaf",
     "Spydr.Eblif.formal_actual_port_step",
+    "Spydr.Eblif.eblif_read_ok",
+    "Spydr.Eblif.eblif_roundtrip_subckt_total",
+    "Spydr.Eblif.read_fails_on_equal_names",
+    "Spydr.Eblif.formal_actual_port",
+    "Spydr.Eblif.ports_never_shrink",
+    "Spydr.Eblif.eblif_roundtrip_ports",
+    "Spydr.Eblif.hdr_port_list",
 ]
-MODULES = ["Spydr.Eblif.Props.C18", "Spydr.Eblif.Props.C18RoundTrip"]
+MODULES = ["Spydr.Eblif.Props.C18", "Spydr.Eblif.Props.C18RoundTrip", "Spydr.Eblif.Props.C18ReadOk", "Spydr.Eblif.Props.C18Ports"]
 
 FINDING = {
     "blackbox-ports": "eblif.blackbox-pins-keep-wire-of-removed-cable",
@@ -547,8 +554,8 @@ def run(ctx):
         "not part of the round-trip comparison (not in C18's list)",
     ]
     ctx.partial_notes = [
-        "the round trip is proved for the .subckt/.gate fragment (eblif_roundtrip_subckt, conditional on the second read "
-        "succeeding); .names/.latch instances, .conn lines, INOUT ports, written black-box blocks and port lists are covered "
+        "the round trip is proved for the .subckt/.gate fragment (eblif_roundtrip_subckt_total: the second read provably succeeds "
+        "when written .cnames are pairwise different); .names/.latch instances, .conn lines, INOUT ports, written black-box blocks and port lists are covered "
         "by the correspondence check only (see docs/eblif.md)",
     ]
     if not ok:
